@@ -280,6 +280,10 @@ pub struct Interp<'a> {
     out: String,
     loop_depth: usize,
     pub steps: u64,
+    /// how an include/render argument whose value is undefined is treated: an error (false) or
+    /// bound to nil (true) — the statements allow either, but never "not bound at all"
+    pub undefined_args_as_nil: bool,
+    pub touched_undefined_arg: bool,
 }
 
 fn forloop_obj(i: usize, n: usize, parent: Option<RVal>) -> RVal {
@@ -331,17 +335,29 @@ impl<'a> Interp<'a> {
             out: String::new(),
             loop_depth: 0,
             steps: 0,
+            undefined_args_as_nil: false,
+            touched_undefined_arg: false,
         }
     }
 
-    pub fn run(mut self, nodes: &[Node]) -> Res {
+    pub fn run(self, nodes: &[Node]) -> Res {
+        self.run_flagged(nodes).0
+    }
+
+    /// result plus "an undefined include/render argument was evaluated"
+    pub fn run_flagged(mut self, nodes: &[Node]) -> (Res, bool) {
+        let r = self.run_inner(nodes);
+        (r, self.touched_undefined_arg)
+    }
+
+    fn run_inner(&mut self, nodes: &[Node]) -> Res {
         match self.block(nodes) {
             Ok(()) => {
                 if self.regs.interrupt.is_some() {
                     // break/continue outside any loop: effect on the rest not specified
                     return Res::Unspec("interrupt outside a loop".into());
                 }
-                Res::Out(self.out)
+                Res::Out(std::mem::take(&mut self.out))
             }
             Err(Stop::Err) => Res::Err,
             Err(Stop::Unspec(w)) => Res::Unspec(w),
@@ -418,6 +434,24 @@ impl<'a> Interp<'a> {
         }
     }
 
+    /// value of an include/render argument
+    fn eval_arg(&mut self, e: &Expr) -> R<RVal> {
+        match e {
+            Expr::Lit(v) => Ok(v.clone()),
+            Expr::Var(p) => match self.path(p)? {
+                Some(v) => Ok(v),
+                None => {
+                    self.touched_undefined_arg = true;
+                    if self.undefined_args_as_nil {
+                        Ok(RVal::Nil)
+                    } else {
+                        Err(Stop::Err)
+                    }
+                }
+            },
+        }
+    }
+
     fn filters(&mut self, mut v: RVal, fs: &[FilterCall]) -> R<RVal> {
         for f in fs {
             let args: Vec<RVal> = {
@@ -428,6 +462,7 @@ impl<'a> Interp<'a> {
                 a
             };
             v = match (f.name.as_str(), &v, args.as_slice()) {
+                ("vdump", x, []) => RVal::Str(x.dump()),
                 ("digest", x, []) => match print(x) {
                     Some(t) => RVal::Str(crate::plug::digest_text(&t)),
                     None => return unspec("printed form not specified"),
@@ -776,7 +811,7 @@ impl<'a> Interp<'a> {
                 let nv = self.eval_defined(name, "partial name")?;
                 let mut m = BTreeMap::new();
                 for (k, e) in args {
-                    let v = self.eval_defined(e, "include argument")?;
+                    let v = self.eval_arg(e)?;
                     m.insert(k.clone(), v);
                 }
                 let nodes = self.partial(&nv)?;
@@ -787,7 +822,7 @@ impl<'a> Interp<'a> {
                 let nv = self.eval_defined(name, "partial name")?;
                 let mut base = BTreeMap::new();
                 for (k, e) in args {
-                    let v = self.eval_defined(e, "render argument")?;
+                    let v = self.eval_arg(e)?;
                     base.insert(k.clone(), v);
                 }
                 if let RenderMode::With(_, alias) | RenderMode::For(_, alias) = mode {
@@ -857,4 +892,17 @@ impl<'a> Interp<'a> {
 /// interpret `main` on `data` with the given partials
 pub fn interpret(main: &[Node], data: &RVal, partials: &HashMap<String, Partial>) -> Res {
     Interp::new(data, partials).run(main)
+}
+
+/// all acceptable verdicts: normally one; when an include/render argument's value is undefined the
+/// render may fail or bind the argument to nil (two verdicts)
+pub fn interpret_all(main: &[Node], data: &RVal, partials: &HashMap<String, Partial>) -> Vec<Res> {
+    let (r1, touched) = Interp::new(data, partials).run_flagged(main);
+    if !touched {
+        return vec![r1];
+    }
+    let mut i2 = Interp::new(data, partials);
+    i2.undefined_args_as_nil = true;
+    let r2 = i2.run(main);
+    vec![r1, r2]
 }
